@@ -14,32 +14,40 @@ Hypothesis Hrk : forall n e d, alookup p n = Some e -> In d (expr_reads e) -> (r
 Hypothesis Hproj : forall n e d, alookup p n = Some e -> nkind n = KProjection -> In d (expr_reads e) ->
   is_fw_or_proj (nkind d) = true.
 
-Lemma MSessInv_init : forall inp s, MInv p rk [] inp s -> SessInv s (set_ts s (s_ts s + 1)%N) inp [].
+Lemma MSessInv_init : forall sA inp s, MInv p rk sA [] inp s -> SessInv s (set_ts s (s_ts s + 1)%N) inp [].
 Proof.
-  intros inp s HI.
+  intros sA inp s HI.
   split; try reflexivity.
   - intros m i Hm Hi. change (get_info s m = Some i) in Hi.
-    destruct (mi_kind _ _ _ _ _ _ HI m i Hi) as [(K1 & K2 & K3 & K4 & K5)|[K1 _]]; [|rewrite Hm in K1; discriminate].
-    repeat (split; [assumption|]). pose proof (mi_ts _ _ _ _ _ _ HI m i Hi). lia.
+    destruct (mi_kind _ _ _ _ _ _ _ HI m i Hi) as [(K1 & K2 & K3 & K4 & K5)|[K1 _]]; [|rewrite Hm in K1; discriminate].
+    repeat (split; [assumption|]). pose proof (mi_ts _ _ _ _ _ _ _ HI m i Hi). lia.
   - intros m i0 Hm Hi0. exists i0. split; [exact Hi0|reflexivity].
   - intros m [].
 Qed.
 
-Lemma MInv_commit : forall inp s sets fuel s1 rs batch s4,
-  MInv p rk [] inp s ->
+Lemma sess_fold_log : forall sets cur rs batch cur' rs' batch',
+  fold_left fsess_step sets (cur, rs, batch) = (cur', rs', batch') -> s_log cur' = s_log cur.
+Proof.
+  induction sets as [|[v x] r IH]; intros cur rs batch cur' rs' batch' H; cbn [fold_left] in H.
+  - inversion H. reflexivity.
+  - rewrite fsess_step_eq in H. apply IH in H. rewrite H. apply set_input_log.
+Qed.
+
+Lemma MInv_commit : forall sA inp s sets fuel s1 rs batch s4,
+  MInv p rk sA [] inp s -> s_log s = [] ->
   fold_left fsess_step sets (set_ts s (s_ts s + 1)%N, [], []) = (s1, rs, batch) ->
   propagate fuel (set_visited (set_stat s1 0%N) []) batch = Ok s4 ->
-  MInv p rk [] (fold_left (fun a '(i, v) => input_set a i v) sets inp) s4.
+  MInv p rk s4 [] (fold_left (fun a '(i, v) => input_set a i v) sets inp) s4.
 Proof.
-  intros inp s sets fuel s1 rs batch s4 HI Hfold Hprop.
+  intros sA inp s sets fuel s1 rs batch s4 HI Hlog Hfold Hprop.
   set (inp' := fold_left (fun a '(i, v) => input_set a i v) sets inp).
-  pose proof (MSessInv_init inp s HI) as HS0.
+  pose proof (MSessInv_init sA inp s HI) as HS0.
   pose proof (sess_fold_inv p rk Hrk _ _ _ _ _ _ _ _ _ HS0 Hfold) as HS. fold inp' in HS.
   destruct HS as [A B C D E F G].
   set (s3 := set_visited (set_stat s1 0%N) []) in *.
   assert (HP0 : PVp push_p (fun _ => False) s3 batch) by (intros x []).
-  destruct (propagate_spec_p _ _ _ _ _ Hprop HP0) as (N1 & N2 & N3 & _ & N5 & N6 & _ & N8 & N9 & N10).
-  cbn [s3 set_visited set_stat s_nodes s_bwd s_ts] in N1, N2, N3.
+  destruct (propagate_spec_p _ _ _ _ _ Hprop HP0) as (N1 & N2 & N3 & N4 & N5 & N6 & _ & N8 & N9 & N10).
+  cbn [s3 set_visited set_stat s_nodes s_bwd s_ts s_log] in N1, N2, N3, N4.
   assert (Hget : forall m, get_info s4 m = get_info s1 m) by (intro m; unfold get_info; rewrite N1; reflexivity).
   assert (Hcal : forall y, callers_of s4 y = callers_of s y) by (intro y; unfold callers_of; rewrite N2, A; reflexivity).
   assert (Hts : s_ts s4 = (s_ts s + 1)%N) by congruence.
@@ -62,7 +70,7 @@ Proof.
     assert (Hcp : push_p c = true).
     { apply push_p_nonfw. unfold nonfw. destruct (nkind c) eqn:Kc; try reflexivity.
       - exfalso. apply Ht. exact Kc.
-      - exfalso. eapply (no_proj_caller p rk Hproj _ _ _ _ x c HI (Hvkind x Hx) Hc). exact Kc. }
+      - exfalso. eapply (no_proj_caller p rk Hproj _ _ _ _ _ x c HI (Hvkind x Hx) Hc). exact Kc. }
     destruct (K2 Hcp) as [K3|[]]. exact K3. }
   (* stored entries of s4: inputs written or kept, other nodes untouched *)
   assert (Hcases : forall m i, get_info s4 m = Some i ->
@@ -76,14 +84,14 @@ Proof.
   assert (Hfwd : forall m, old_fwd s4 m = old_fwd s m).
   { intro m. unfold old_fwd. destruct (get_info s4 m) as [i|] eqn:Hi.
     - destruct (Hcases m i Hi) as [(K & K2 & _)|[_ K]].
-      + rewrite K2. cbn. symmetry. apply (minput_no_fwd _ _ _ _ _ _ _ HI K).
+      + rewrite K2. cbn. symmetry. apply (minput_no_fwd _ _ _ _ _ _ _ _ HI K).
       + rewrite K. reflexivity.
     - destruct (get_info s m) as [i0|] eqn:Hi0; [|reflexivity]. exfalso.
       rewrite Hget in Hi. destruct (kind_eqb (nkind m) KInput) eqn:Ek.
       + apply kind_eqb_eq in Ek. destruct (F m i0 Ek Hi0) as [i [K _]]. congruence.
       + rewrite D in Hi; [congruence|]. intro K. apply kind_eqb_eq in K. congruence. }
   assert (Hnoninput : forall m d, In d (old_fwd s m) -> nkind m <> KInput).
-  { intros m d Hd K. rewrite (minput_no_fwd _ _ _ _ _ _ _ HI K) in Hd. destruct Hd. }
+  { intros m d Hd K. rewrite (minput_no_fwd _ _ _ _ _ _ _ _ HI K) in Hd. destruct Hd. }
   assert (Hsame : forall m, nkind m <> KInput -> get_info s4 m = get_info s m).
   { intros m K. rewrite Hget. apply D. exact K. }
   assert (Hstored : forall m, get_info s m <> None -> get_info s4 m <> None).
@@ -112,7 +120,7 @@ Proof.
       + exists iy, j, v, t. split; [rewrite (Hsame y Ky); exact A1|]. split; [exact Hj4|].
         split; [exact A3|]. split; [congruence|]. intros Kn x.
         destruct (E z j Ek Hj) as (_ & _ & T & _). rewrite T.
-        destruct (mi_kind _ _ _ _ _ _ HI z jz A2) as [(_ & _ & _ & T0 & _)|(K & _)]; [|rewrite Ek in K; discriminate].
+        destruct (mi_kind _ _ _ _ _ _ _ HI z jz A2) as [(_ & _ & _ & T0 & _)|(K & _)]; [|rewrite Ek in K; discriminate].
         rewrite <- (A5 Kn x), T0. reflexivity.
       + exfalso. apply Hnv. eapply Hchanged; eauto.
     - assert (Kz : nkind z <> KInput) by (intro K; apply kind_eqb_eq in K; congruence).
@@ -120,24 +128,24 @@ Proof.
   (* the non-firewall nodes above an expanded node are expanded *)
   assert (Hup : forall d y, tpath s d y -> thru d -> In y (s_visited s4) -> In d (s_visited s4)).
   { intros d y Hp. induction Hp as [d|d d' y Hd Hn Hp IH]; intros Hnd Hy; [exact Hy|].
-    specialize (IH Hn Hy). apply (proj2 (HV d' IH d (proj2 (mi_bwd _ _ _ _ _ _ HI d d') Hd))). exact Hnd. }
+    specialize (IH Hn Hy). apply (proj2 (HV d' IH d (proj2 (mi_bwd _ _ _ _ _ _ _ HI d d') Hd))). exact Hnd. }
   assert (HGood : forall d, thru d -> MGood s d -> ~ In d (s_visited s4) -> MGood s4 d).
   { intros d Hnd HG Hnv. eapply MGood_frame; [exact HG|intros; apply Hfwd|].
     intros y z Hy Hz Hyz. apply Hedge; auto. intro Kz. apply Hnv.
     assert (Hny : thru y).
     { destruct (tpath_last _ _ _ Hy) as [<-|[w (_ & _ & K)]]; assumption. }
-    apply (Hup d y Hy Hnd). apply (proj2 (HV z Kz y (proj2 (mi_bwd _ _ _ _ _ _ HI y z) Hz))). exact Hny. }
+    apply (Hup d y Hy Hnd). apply (proj2 (HV z Kz y (proj2 (mi_bwd _ _ _ _ _ _ _ HI y z) Hz))). exact Hny. }
   assert (Hnotver : forall m i, get_info s4 m = Some i -> i_verified i = s_ts s4 -> nkind m = KInput).
   { intros m i Hi Hv. destruct (Hcases m i Hi) as [(K & _)|[_ K]]; [exact K|].
-    pose proof (mi_ts _ _ _ _ _ _ HI m i K). lia. }
+    pose proof (mi_ts _ _ _ _ _ _ _ HI m i K). lia. }
   assert (Hinput_leaf : forall m, nkind m = KInput -> forall x, tpath s m x -> old_fwd s x = []).
-  { intros m K x Hx. pose proof (minput_no_fwd _ _ _ _ _ _ _ HI K) as E0.
+  { intros m K x Hx. pose proof (minput_no_fwd _ _ _ _ _ _ _ _ HI K) as E0.
     inversion Hx; subst; [exact E0|].
     match goal with H : In _ (old_fwd s m) |- _ => rewrite E0 in H; destruct H end. }
   split.
   - intros m i Hi. destruct (Hcases m i Hi) as [(K1 & K2 & K3 & K4 & K5 & _)|[K1 K2]].
     + left. auto.
-    + destruct (mi_kind _ _ _ _ _ _ HI m i K2) as [(K & _)|K]; [congruence|]. right. exact K.
+    + destruct (mi_kind _ _ _ _ _ _ _ HI m i K2) as [(K & _)|K]; [congruence|]. right. exact K.
   - intros m i d Hi Hdi. destruct (Hcases m i Hi) as [(_ & K & _)|[_ K]].
     + rewrite K in Hdi. destruct Hdi.
     + eapply mi_obs; eauto.
@@ -145,12 +153,12 @@ Proof.
     + rewrite K in Hv. discriminate.
     + eapply mi_obs_fwd; eauto.
   - intros m d Hd. rewrite Hfwd in Hd. apply Hstored. eapply mi_target; eauto.
-  - intros m d. rewrite Hcal, Hfwd. apply (mi_bwd _ _ _ _ _ _ HI).
+  - intros m d. rewrite Hcal, Hfwd. apply (mi_bwd _ _ _ _ _ _ _ HI).
   - intros a b K. rewrite Hfwd. destruct (Hd_new a b K) as [K1|K1].
     + eapply mi_dirty_edge; eauto.
-    + apply (mi_bwd _ _ _ _ _ _ HI). exact K1.
+    + apply (mi_bwd _ _ _ _ _ _ _ HI). exact K1.
   - intros m i Hi. rewrite Hts. destruct (Hcases m i Hi) as [(_ & _ & _ & _ & _ & K)|[_ K]]; [exact K|].
-    pose proof (mi_ts _ _ _ _ _ _ HI m i K). lia.
+    pose proof (mi_ts _ _ _ _ _ _ _ HI m i K). lia.
   - intros m i d v t Hi Ho. destruct (Hcases m i Hi) as [(_ & _ & K & _)|[_ K]].
     + rewrite K in Ho. discriminate.
     + eapply mi_tfc; eauto.
@@ -166,9 +174,9 @@ Proof.
   - (* mi_C *)
     intros m d Hd Hcl. rewrite Hfwd in Hd.
     assert (Hcl0 : ~ sdirty s m d) by (intro K; apply Hcl; apply Hd_mono; exact K).
-    destruct (mi_C _ _ _ _ _ _ HI m d Hd Hcl0) as [Em Gd].
+    destruct (mi_C _ _ _ _ _ _ _ HI m d Hd Hcl0) as [Em Gd].
     assert (Hdv : ~ In d (s_visited s4)).
-    { intro K. apply Hcl. apply (proj1 (HV d K m (proj2 (mi_bwd _ _ _ _ _ _ HI m d) Hd))). }
+    { intro K. apply Hcl. apply (proj1 (HV d K m (proj2 (mi_bwd _ _ _ _ _ _ _ HI m d) Hd))). }
     split; [apply Hedge; assumption|]. intro Hn. apply MGood_GoodX. apply HGood; auto. apply MGoodX_nil. auto.
   - (* mi_G *)
     intros m [i [Hi Hv]]. pose proof (Hnotver m i Hi Hv) as K.
@@ -186,8 +194,30 @@ Proof.
     + right. split.
       * cbn [s3 set_visited set_stat callers_of s_bwd] in K.
         assert (K' : In x (callers_of s y)) by (unfold callers_of in *; cbn in K; rewrite A in K; exact K).
-        apply (mi_bwd _ _ _ _ _ _ HI) in K'. eapply Hnoninput; eauto.
+        apply (mi_bwd _ _ _ _ _ _ _ HI) in K'. eapply Hnoninput; eauto.
       * intros c Hc. rewrite Hcal in Hc. apply HV; assumption.
   - intros x [].
+  - intros m Hm. exfalso. rewrite N4, (sess_fold_log _ _ _ _ _ _ _ Hfold) in Hm. cbn [set_ts s_log] in Hm. rewrite Hlog in Hm. destruct Hm.
+  - intro m. right. reflexivity.
+  - intros m i Hi. right. exists i. split; [exact Hi|]. intros. reflexivity.
+Qed.
+
+(** the entries of the queries are not touched by a session *)
+Lemma commit_other : forall s sets fuel s1 rs batch s4 m,
+  (forall n i, get_info s n = Some i -> nkind n = KInput -> i_fwd i = []) ->
+  fold_left fsess_step sets (set_ts s (s_ts s + 1)%N, [], []) = (s1, rs, batch) ->
+  propagate fuel (set_visited (set_stat s1 0%N) []) batch = Ok s4 ->
+  nkind m <> KInput -> get_info s4 m = get_info s m.
+Proof.
+  intros s sets fuel s1 rs batch s4 m Hin Hfold Hprop Hk.
+  apply propagate_same in Hprop. destruct Hprop as (N1 & _).
+  assert (E : get_info s4 m = get_info s1 m) by (unfold get_info; rewrite N1; reflexivity). rewrite E. clear E N1.
+  assert (G : forall sets cur rs batch cur' rs' batch',
+            fold_left fsess_step sets (cur, rs, batch) = (cur', rs', batch') -> get_info cur' m = get_info cur m).
+  { clear Hfold. induction sets0 as [|[v x] r IH]; intros cur rs0 batch0 cur' rs' batch' H; cbn [fold_left] in H.
+    - inversion H. reflexivity.
+    - rewrite fsess_step_eq in H. apply IH in H. rewrite H. rewrite set_input_get.
+      destruct (node_eqb_spec (mkNode KInput v) m) as [<-|Hne]; [exfalso; apply Hk; reflexivity|reflexivity]. }
+  rewrite (G _ _ _ _ _ _ _ Hfold). reflexivity.
 Qed.
 End Commit.
